@@ -3,10 +3,16 @@
 pre : passes the known-finding keys (<dialect>:<reference name>) and the gen directory to `sqv c14`.
 run : `sqv c14` walks the 13 freshly built dialects through the cfg(sqruff_verif) accessors, observes
       `Dialect::ref` on every reference reachable from FileSegment (direct observation), asks every node for
-      its real `simple()` / `is_optional()`, and writes coq/gen/Grammar_<d>.v.
+      its real `simple()` / `is_optional()`, and writes coq/gen/Grammar_<d>.v.  Every real `simple()` and every
+      real parse runs on a helper thread under a watchdog (a left-corner self reference makes `Ref::simple`
+      re-enter its own OnceLock and block at 0 % CPU): a hint computation that does not end is reported within
+      seconds as a direct failure naming dialect, reference cycle, path from FileSegment and SQL whose parse
+      blocks / aborts, never as a harness timeout.
 post: the 13 generated files are compiled by coqc in parallel; each states 6 vm_compute obligations
       (closed-except, known names really dangling, rank certificate, model simple = real simple for every
-      node, model deref = real Dialect::ref, pinned string ids) and 3 instances of the general theorems.
+      node (blocked computations included: SHang), model deref = real Dialect::ref, pinned string ids) and 3
+      instances of the general theorems; a dialect with a left-corner cycle additionally gets the Coq-checked
+      refutation `<d>_leftcorner_cycle_k` / `<d>_has_no_rank_certificate_k` before `ranked_<d>` fails.
 """
 import json
 import os
@@ -30,9 +36,9 @@ def _pre(ctx):
 
 
 def _diag(out):
-    """the (101..105, value) tuples printed by the generated file before its theorems"""
+    """the (101..107, value) tuples printed by the generated file before / between its theorems"""
     d = {}
-    for m in re.finditer(r"=\s*\((10[1-5]),\s*(.*?)\)\s*:\s*N \*", out, flags=re.S):
+    for m in re.finditer(r"=\s*\((10[1-7]),\s*(.*?)\)\s*:\s*N \*", out, flags=re.S):
         d[int(m.group(1))] = re.sub(r"\s+", " ", m.group(2))[:1500]
     return d
 
@@ -91,6 +97,16 @@ def _post(ctx):
                 detail["names_where_model_deref_differs_from_Dialect_ref"] = names(dg[104])[:40]
             if dg.get(105, "[]") != "[]":
                 detail["reachable_nodes_without_rank(left-corner cycle)"] = dg[105]
+            if dg.get(106, "[]") != "[]":
+                # (node, code): what the Gallina simple answers on the dumped graph for the unranked reachable nodes
+                code = {"1": "model out of fuel (does not terminate)", "2": "blocks: a Ref re-enters its own OnceLock (SHang)",
+                        "3": "panics 'Self referential grammar detected' (SSelfRef)"}
+                detail["model_simple_of_unranked_reachable_nodes"] = [dict(node=int(a), model=code.get(b, b)) for a, b in re.findall(r"\((\d+),\s*(\d+)\)", dg[106])][:40]
+            if detail.get("theorem_that_no_longer_checks", "").startswith("ranked_") and "_has_no_rank_certificate_0" in open(os.path.join(vlib.GEN, fname)).read():
+                detail["coq_checked_refutation"] = ("%s_leftcorner_cycle_k / %s_has_no_rank_certificate_k (left-corner cycle through a reachable node, found by the translator, "
+                                                    "checked by vm_compute; by C14_reachable_cycle_no_certificate no rank certificate exists)" % (fname[8:-2], fname[8:-2]))
+                if dg.get(107):
+                    detail["model_simple_of_cycle_nodes"] = dg[107]
             merged = False
             for (_kind, vd, _c) in R.violations:
                 if isinstance(vd, dict) and vd.get("file") == "coq/gen/" + fname:
@@ -125,7 +141,8 @@ def _post(ctx):
 CFG = dict(
     prop="C14", level="proof", harness="c14",
     props_files=["theories/Props/C14.v", "theories/Props/Pem.v"], corr_file=None, corr_module=None,
-    groups={}, pre=_pre, post=_post, harness_timeout=1200,
+    extra_targets=["theories/Corr/Pem.vo"],      # the generated PemGrammar_<d>.v import it (a clean clone has no stale .vo to rely on)
+    groups={}, pre=_pre, post=_post, harness_timeout=900,
     design_ref="DESIGN.md 6.14",
     technique="translator: the 13 dialect grammar graphs are dumped from the freshly built code into Gallina terms; a closure "
               "check and a rank certificate proved sound once in Coq are evaluated on them by vm_compute (exhaustive over all "
@@ -134,12 +151,16 @@ CFG = dict(
                "C14_closed_except_sound / C14_closed_no_dangling: if closed_except_b g K = true then on every path of interpreter "
                "edges from FileSegment every reference resolves (or is one of the listed known names) and every bracket type "
                "exists; C14_simple_terminates: with a checked rank certificate simple() of every reachable element neither loops "
-               "nor hits the self-reference panic; C14_known_finding_is_dangling: every listed known name has a checked path "
+               "nor blocks in the OnceLock of a Ref asked again from its own initialiser (SHang) nor hits the self-reference "
+               "panic, and C14_reachable_cycle_no_certificate: a checked left-corner cycle through a reachable element refutes "
+               "every rank certificate; C14_known_finding_is_dangling: every listed known name has a checked path "
                "certificate (stale entries fail). Per dialect the generated file proves closed_<d>, ranked_<d>, "
                "known_dangling_<d> by vm_compute over all nodes and instantiates the general theorems.",
     level_note="Trusted: Coq kernel + vm_compute; the translator (harness/src/c14.rs + the cfg(sqruff_verif) accessors) prints what "
                "the accessors return - cross-checked by simple_agrees_<d> (Gallina simple on the dump = real Matchable::simple "
-               "for every node, panics included) and deref_agrees_<d> / the dump_deref_agrees monitor; string interning is the "
+               "for every node, panics and blocked computations included; the real calls run under a watchdog whose verdict "
+               "'blocked' = helper thread asleep with no CPU for 1.5 s, confirmed on a dialect built afresh, and which is "
+               "self-tested on a re-entrant OnceLock on every run) and deref_agrees_<d> / the dump_deref_agrees monitor; string interning is the "
                "translator's (HashMap). That the interpreter only follows the modelled edges (node_children/node_refs) is read "
                "off the match_segments bodies, not proved.",
     rule="all 13 dialects (kind_to_dialect) x every grammar node reachable from the library (exhaustive); evaluations = one direct "
@@ -150,6 +171,9 @@ CFG = dict(
         "next_ex_bracket_match('bracket_pairs') (greedy modes, Anything); FileSegment is the root (Parser::parse)",
         "Delimited ignores its base.exclude (it does today); an AHashSet bracket set has at most one pair per bracket type",
         "SegmentGenerators are expanded by Dialect::expand before parsing (the dump is taken after expand, as the linter does)",
+        "std's OnceLock blocks when initialised again from its own initialiser (documented as unspecified, 'currently deadlocks'); "
+        "monitored on every run (watchdog_sees_reentrant_oncelock). The value cached in Ref::simple_cache is not modelled: a "
+        "computation that completes answers the same whatever the crumbs, one that panics or blocks leaves the cell empty",
     ],
     trusted_extra=["harness/src/c14.rs graph walk and Gallina printer; cfg(sqruff_verif) accessors in lib-core (commit verif-hook: read-only accessors ...)"],
 )
